@@ -9,9 +9,18 @@ CHECKS = {
  "C02": ("exploration", "bounded-exhaustive enumeration of violation sites (witness input, constraint constant, gate wire via hook H1) over the program space, reference-model oracle",
          "For every program of the bounded space and every violation site x delta the real prover is run on the bad assignment and the real verifier must reject whenever the reference constraint system reports a violated constraint or gate.",
          "decides proofs emitted by the real proving code for bad assignments (not arbitrary adversaries); coincidental cancellation with probability ~1/|F| treated as impossible", "4 C02"),
+ "C04": ("exploration", "deviation-bounded exhaustive enumeration: every single-bit flip and every single algebraic alteration of accepted base proofs, run through the real decoder and verifier",
+         "For each accepted base proof (k = 0..3 rounds, one- and two-phase) every bit flip of the encoding, every single-field algebraic deviation, every same-type copy/swap, every round edit and trailing bytes must be rejected at decode or at verify, or decode to the identical proof object.",
+         "bases and alphabets as listed in the evidence; 'identical object' = canonical re-encoding equals the original", "4 C04"),
+ "C07": ("exploration", "exhaustive enumeration of all ordered batches up to a length bound over an instance pool with correlated forgeries, oracle = conjunction of individual real verifications",
+         "Every ordered batch (every length, position, size mix) over the pool is run through the real batch_verify and compared with the conjunction of the members' individual verdicts.",
+         "batch RNG is a seeded ChaCha; pool and length bound as listed in the evidence", "4 C07"),
  "C08": ("fault_enumeration", "exhaustive enumeration of malformed-input families (shape grid, identity/zero slots, all short strings, all prefixes, per-byte substitutions, length prefixes) executed in isolated child processes with a counting allocator",
          "Every member of the listed hostile-input families is decoded and, if it decodes, verified singly and in three batch arrangements; any unwind, process death or allocation above 8*len+64KiB during decoding is a violation.",
          "inputs outside the listed families are not covered; memory observed via a counting global allocator", "4 C08"),
+ "C11": ("exploration", "exhaustive enumeration of prefixes and invalid slot contents for proofs of every circuit size in a bounded family",
+         "For every proof of the size family and small program space: deterministic encoding, round trip, verdict preserved, exact length law, every strict prefix rejected, every scalar slot with a non-canonical value rejected, every point slot with an off-curve / non-canonical / small-order / out-of-subgroup point rejected.",
+         "proof family as listed in the evidence", "4 C11"),
  "C12": ("model_checking", "explicit-state enumeration (stateright BFS) of capacity histories, each replayed on a real BulletproofGens and compared with direct construction; content checks on every generator",
          "Every history of new/increase_capacity/serialize-deserialize up to the depth bound x parties 1..3 x 3 curves is executed on the implementation; every (n,m) view is compared with a directly constructed object; all generators are checked for order r, non-identity, pairwise distinctness and against SHA3 digests recorded from the reference revision.",
          "views beyond capacity/parties are out of contract; SHA3 and point encoding trusted for digests", "4 C12"),
